@@ -28,7 +28,7 @@ def twin_programs(tier):
     out = []
     seen = set()
     for k, (sig, bad, good) in enumerate(c03.enumerate_cases(level)):
-        if tier != "thorough" and len(sig) > 1 and k % 3 != 0:
+        if tier != "thorough" and len(sig) > 1 and k % 6 != 0:
             continue
         if tier == "thorough" and len(sig) > 2 and k % 9 != 0:
             continue
@@ -95,12 +95,14 @@ def run(tier):
             out.fail(key, c)
         if key in out.known_seen:
             out.known_seen[key][0] = len(cs)
-    ok_sigs = {u.tags for u in accepted if u.name in ran} | {sig for (i, sig, src) in to_build if res[i].ok}
+    typed_cov, typed_sigs = typed_part(out, tier)
+    ok_sigs = {u.tags for u in accepted if u.name in ran} | {sig for (i, sig, src) in to_build if res[i].ok} | typed_sigs
     cov = {
         "evaluations": len(units) + len(twins),
         "distinct_nontrivial": len(ok_sigs),
-        "rule": "programs = every unit of the semantic corpus (see C01) + the benign twin of every C03 rule x context case (quick: level 1 and a third of level 2; thorough: all of "
-        "level 2 and a ninth of level 3), each with a main; domain = programs the real checker accepts; oracle = try_generate succeeds and `incan build` exits 0; "
+        "rule": "programs = every unit of the semantic corpus (see C01) + the benign twin of every C03 rule x context case (quick: level 1 and a sixth of level 2; thorough: all of "
+        "level 2 and a ninth of level 3), each with a main; + 41 typed expression atoms alone, nested in 7 container forms, and in all ordered pairs within one function "
+        "(packed 60 functions per program, bisected; a pack that only fails as a whole is reported as such); domain = programs the real checker accepts; oracle = try_generate succeeds and `incan build` exits 0; "
         "non-trivial = distinct signatures of accepted programs that built",
         "samples": [{"sig": list(sig), "program": src} for sig, src in common.pick_samples(twins)],
         "exhaustive": True,
@@ -111,6 +113,7 @@ def run(tier):
         "twins_accepted": n_acc,
         "twins_built": n_built,
         "failing_by_class": {**{k: len(v) for k, v in by_key.items()}, **{f"unit:{n}": 1 for n in failed}},
+        **typed_cov,
     }
     pipe.prune_targets()
     return out.finish(
@@ -131,3 +134,186 @@ def replay(path):
     print("incan build:", "ok" if r.ok else f"FAILED at {r.stage}: {r.detail}")
     print(r.stderr[-1200:])
     return 0 if r.ok else 1
+
+
+# ---------------------------------------------------------------------------------------------------------------------
+# (c) typed expression atoms: alone, nested in containers, and in ordered pairs within one function
+# ---------------------------------------------------------------------------------------------------------------------
+T_ATOMS = {
+    "int": "1",
+    "arith": "n + 2 * n",
+    "float": "1.5",
+    "div": "n / 2",
+    "floordiv": "n // 2",
+    "mod": "n % 2",
+    "pow": "n ** 2",
+    "neg": "-n",
+    "bool": "n > 1",
+    "not": "not flag",
+    "and": "flag and n > 0",
+    "str": '"s"',
+    "fstr": 'f"v={n}"',
+    "str_upper": '"ab".upper()',
+    "str_split": '"a,b".split(",")',
+    "str_cmp": '"a" < "b"',
+    "str_len": 'len("abc")',
+    "list": "[1, 2, 3]",
+    "list_str": '["a", "b"]',
+    "list_nested": "[[1], [2, 3]]",
+    "dict": '{"a": 1}',
+    "dict_int": "{1: 2}",
+    "set": "{1, 2}",
+    "set_str": '{"a", "b"}',
+    "set_float": "{1.5}",
+    "set_model": "{Point(x=1, y=2)}",
+    "tuple": '(1, "a")',
+    "some": "Some(n)",
+    "listcomp": "[i * 2 for i in xs]",
+    "listcomp_if": "[i for i in xs if i > 0]",
+    "dictcomp": "{i: i * i for i in xs}",
+    "len": "len(xs)",
+    "index": "xs[0]",
+    "slice": "xs[1:]",
+    "in": "n in xs",
+    "model": "Point(x=1, y=2)",
+    "field": "p.x",
+    "enum": "Color.Red",
+    "call": "takes_int(n)",
+    "closure": "(a) => a + 1",
+    "range": "range(3)",
+}
+T_NEST = {
+    "list1": "[{E}]",
+    "list2": "[{E}, {E}]",
+    "dict_val": '{"k": {E}}',
+    "dict_dict": '{"k": {"j": {E}}}',
+    "tuple": "({E}, 1)",
+    "some": "Some({E})",
+    "paren": "({E})",
+}
+
+
+def typed_functions(tier, atoms=None):
+    """Yield (sig, function_text). Every function has the same signature and the same local `p`.
+    atoms=None: the single-atom functions; otherwise nesting and ordered pairs over the given (buildable) atoms."""
+    head = "def {name}(n: int, flag: bool, xs: List[int]) -> None:\n    p = Point(x=1, y=2)\n"
+    k = 0
+    if atoms is None:
+        for a, ea in T_ATOMS.items():
+            k += 1
+            yield (f"tatom:{a}",), head.format(name=f"s{k}") + f"    let v1 = {ea}\n"
+        return
+    A = {a: T_ATOMS[a] for a in atoms}
+    for a, ea in A.items():
+        for c, tpl in T_NEST.items():
+            k += 1
+            yield (f"tatom:{a}", f"tnest:{c}"), head.format(name=f"t{k}") + f"    let v1 = {tpl.replace('{E}', ea)}\n"
+    for a, ea in A.items():
+        for b, eb in A.items():
+            k += 1
+            yield (f"tatom:{a}", f"then:{b}"), head.format(name=f"t{k}") + f"    let v1 = {ea}\n    let v2 = {eb}\n"
+    if tier == "thorough":
+        for a, ea in A.items():
+            for c, tpl in T_NEST.items():
+                for b in ("dict", "set", "list", "fstr", "listcomp", "model", "str_split"):
+                    if b not in A:
+                        continue
+                    k += 1
+                    yield (f"tatom:{b}", f"then-nested:{a}", f"tnest:{c}"), head.format(name=f"t{k}") + f"    let v1 = {A[b]}\n    let v2 = {tpl.replace('{E}', ea)}\n"
+
+
+TYPED_PACK = 60
+
+
+def typed_part(out, tier):
+    pre = c03.PRELUDE
+    tail = "\n\ndef main() -> None:\n    pass\n"
+    fails = []  # (sig, program, kind, detail)
+
+    def screen(funs):
+        """checker + in-process emission; returns functions that are accepted and emit."""
+        reqs = [{"id": i, "op": "front", "src": pre + f + tail, "emit": True} for i, (sig, f) in enumerate(funs)]
+        fr = serve.run_requests(reqs)
+        acc = [(i, sig, f) for i, (sig, f) in enumerate(funs) if not fr[i].get("crashed") and fr[i]["check"]["status"] == "ok"]
+        good = []
+        for i, sig, f in acc:
+            em = fr[i]["emit"]
+            if em["status"] != "ok":
+                kind = ("emit-panic" if em["status"] == "panic" else "codegen:" + re.sub(r"'[^']*'", "'_'", (em.get("detail") or ""))[:70]).replace(" ", "_")
+                fails.append((sig, pre + f + tail, kind, em.get("detail") or em.get("panic") or ""))
+            else:
+                good.append((sig, f))
+        return len(acc), good
+
+    # stage 1: every atom alone, built separately; only atoms that build take part in nesting / pairs
+    singles = list(typed_functions(tier))
+    n_acc1, good1 = screen(singles)
+    res1 = pipe.run_many([(k, {"prog.incn": pre + f + tail}, {"run": False}) for k, (sig, f) in enumerate(good1)])
+    ok_atoms = []
+    for k, (sig, f) in enumerate(good1):
+        if res1[k].ok:
+            ok_atoms.append(sig[0].split(":", 1)[1])
+        else:
+            fails.append((sig, pre + f + tail, outcome_kind(res1[k]), res1[k].stderr[-1500:]))
+    funs = list(typed_functions(tier, ok_atoms))
+    n_acc2, good = screen(funs)
+    acc = range(n_acc1 + n_acc2)
+    funs = singles + funs
+
+    def prog(fs):
+        return pre + "\n\n".join(f for _, f in fs) + "\n\ndef main() -> None:\n    pass\n"
+
+    # import/feature scanners look at the whole program, so packing can mask a failure: nesting cases (and, in the thorough
+    # tier, every case) are built one function per program; ordered pairs are packed in the quick tier
+    solo = [g for g in good if tier == "thorough" or g[0][1].startswith("tnest:")]
+    rest = [g for g in good if not (tier == "thorough" or g[0][1].startswith("tnest:"))]
+    packs = [[g] for g in solo] + [rest[i : i + TYPED_PACK] for i in range(0, len(rest), TYPED_PACK)]
+    built = len(ok_atoms)
+    pack_only = []
+    while packs:
+        res = pipe.run_many([(k, {"prog.incn": prog(p)}, {"run": False}) for k, p in enumerate(packs)])
+        nxt = []
+        for k, p in enumerate(packs):
+            r = res[k]
+            if r.ok:
+                built += len(p)
+            elif len(p) == 1:
+                fails.append((p[0][0], prog(p), outcome_kind(r), r.stderr[-1500:]))
+            else:
+                h = len(p) // 2
+                nxt.append((p, r, p[:h], p[h:]))
+        # a pack that fails although both halves build is reported as a whole (the failure needs several functions together)
+        packs = []
+        if nxt:
+            halves = []
+            for p, r, a, b in nxt:
+                halves += [a, b]
+            hres = pipe.run_many([(k, {"prog.incn": prog(h)}, {"run": False}) for k, h in enumerate(halves)])
+            for j, (p, r, a, b) in enumerate(nxt):
+                ra, rb = hres[2 * j], hres[2 * j + 1]
+                if ra.ok and rb.ok:
+                    built += 0
+                    pack_only.append((p, r))
+                else:
+                    for h, rh in ((a, ra), (b, rb)):
+                        if rh.ok:
+                            built += len(h)
+                        elif len(h) == 1:
+                            fails.append((h[0][0], prog(h), outcome_kind(rh), rh.stderr[-1500:]))
+                        else:
+                            packs.append(h)
+    l1 = {sig[0]: kind for sig, _, kind, _ in fails if len(sig) == 1}
+    by_key = {}
+    for sig, program, kind, detail in fails:
+        key = f"typed:{sig[0]}|{kind}" if l1.get(sig[0]) == kind else "typed:" + "@".join(sig) + f"|{kind}"
+        by_key.setdefault(key, []).append({"program": program, "sig": list(sig), "detail": detail})
+    for p, r in pack_only:
+        key = f"typed-pack-only|{outcome_kind(r)}"
+        by_key.setdefault(key, []).append({"program": prog(p), "sig": ["pack of %d functions; fails only together" % len(p)] + ["+".join(s) for s, _ in p][:6], "detail": r.stderr[-1500:]})
+    for key, cs in by_key.items():
+        cs.sort(key=lambda c: (len(c["sig"]), len(c["program"])))
+        for c in cs[:2]:
+            out.fail(key, c)
+        if key in out.known_seen:
+            out.known_seen[key][0] = len(cs)
+    return {"typed_functions": len(funs), "typed_accepted": len(acc), "typed_built": built, "typed_atoms_building_alone": ok_atoms, "typed_failing_by_class": {k: len(v) for k, v in by_key.items()}}, {s for s, _ in good}
